@@ -62,7 +62,7 @@ def dev_cfg(pool):
 def run(tier, seed):
     chk = report.Check("C10", tier, seed)
     rng = random.Random(seed)
-    mc.into(chk, mc.run_config("MC_Res_q", "MC_Res", must_cover=("ReplyEv", "CtlClose", "LsnTry", "Connect")))
+    mc.into(chk, mc.run_config("MC_Res_q", "MC_Res", must_cover=("ReplyEv", "CtlClose", "LsnTry", "EnvStep")))
     if tier != "quick":
         mc.into(chk, mc.run_config("MC_Res_t", "MC_Res"))
     fam = families(tier, rng)
